@@ -53,6 +53,8 @@ FLOORS = {
     'misuse:error-demanded': (0.60, 'misuse:case'),
     'closure:pattern:empty-closure': (0.10, 'closure:case'),
     'closure:pattern:focus-partial': (0.10, 'closure:case'),
+    'closure:pattern:callable': (0.08, 'closure:case'),
+    'program:fold-multi-item-zero': (0.03, 'program:case'),
     'sort-hetero:python-equal-twins': (0.70, 'sort-hetero:case'),
     'sort-collation:orders-differ': (0.70, 'sort-collation:case'),
     'sort-collation:empty-arg-nondefault': (0.20, 'sort-collation:case'),
@@ -141,6 +143,10 @@ def program_classes(ast, ip):
         cls.append('named-ref')
     if any(n[0] == 'inline' and any(not isinstance(p, str) for p in n[1]) or n[0] == 'inline' and len(n) > 3 for n in ns):
         cls.append('typed-signature')
+    if any(n[0] == 'call' and n[1] in ('fold-left', 'fold-right') and n[2][1][0] == 'seq' for n in ns):
+        cls.append('fold-multi-item-zero')
+    if any(n[0] in ('mapc',) for n in ns):
+        cls.append('map-as-function')
     params = {p if isinstance(p, str) else p[0] for n in inl for p in n[1]}
     bound = {nm for n in ns if n[0] in ('for', 'let', 'some', 'every') for nm, _ in n[1]}
     if params & bound:
@@ -165,7 +171,8 @@ class CountingInterp(interp.Interp):
         self.max_item_calls = 0
 
     def call(self, f, args):
-        c = self.item_calls[f.ident] = self.item_calls.get(f.ident, 0) + 1
+        ident = f.ident if interp.is_fn(f) else canon(interp.canon_item(f))
+        c = self.item_calls[ident] = self.item_calls.get(ident, 0) + 1
         if c > self.max_item_calls:
             self.max_item_calls = c
         return super().call(f, args)
@@ -239,7 +246,7 @@ def judge_program(case, rec: Recorder | None = None, check='program', localize=T
                 d = Disc(f'C16/shared-token/{fam}/{kk}', exp[1], _show(obs), f'{v}: {expr}')
             elif localize:
                 for sub in sorted(base._closed_subexprs(ast), key=lambda s: len(canon(s))):
-                    if sub[0] in ('ref', 'inline', 'array', 'step') or _implicit_focus(sub):
+                    if sub[0] in ('ref', 'inline', 'array', 'mapc', 'step') or _implicit_focus(sub):
                         continue
                     ds = judge_program({'ast': sub, 'v': v}, None, check, localize=False)
                     if ds:
@@ -308,9 +315,10 @@ def build_expansion(case):
         return wrap(c('for-each', S, F)), wrap(['for', [['x', S]], ['dyn', F, [['var', 'x']]]])
     if rel == 'filter':
         return wrap(c('filter', S, F)), wrap(['filter', S, ['dyn', F, [['ctx']]]])
-    if rel in ('fold-left', 'fold-right'):
+    if rel in ('fold-left', 'fold-right', 'fold-left-seq', 'fold-right-seq'):
         items = _items_of(S, v)
         acc = case['z']
+        rel = rel[:-4] if rel.endswith('-seq') else rel
         if rel == 'fold-left':
             for it in items:
                 acc = ['dyn', F, [acc, it]]
